@@ -8,6 +8,7 @@
 #include "vf_main.hpp"
 #include "rec.hpp"
 #include "mcmap.hpp"
+#include "hep/mc-mpi.hpp"
 
 typedef VF_T T;
 using namespace vf;
@@ -277,6 +278,53 @@ hep::plain_result<T> run_any(int integ, RunCfg const& c, RunAcc* acc, std::size_
     return hep::multi_channel_iteration(integrand, calls, w, eng);
 }
 
+// the same iteration through the MPI integrators on the thread shim (every rank has its own accumulator of expected bin contents)
+struct GoOnMpi { template <typename C> bool operator()(MPI_Comm, C const&) const { return true; } };
+
+hep::plain_result<T> run_any_mpi(int integ, RunCfg const& c, std::vector<RunAcc>& accs, int P, std::uint64_t wseed, std::size_t dims, std::size_t calls, std::uint32_t eseed,
+    std::size_t bins, std::size_t channels, bool& aborted)
+{
+    std::vector<T> sum(1);
+    hep::plain_result<T> res(std::vector<hep::distribution_result<T>>(), 0, 0, 0, T(), T());
+    VfWorld world;
+    hep::distribution_parameters<T> p1(c.ax.bins, c.ax.min, c.ax.max, "x");
+    hep::distribution_parameters<T> p2(c.ax.bins, c.ay.bins, c.ax.min, c.ax.max, c.ay.min, c.ay.max, "xy");
+    hep::distribution_parameters<T> const& dp = c.two_d ? p2 : p1;
+    vf_mpi_run(world, P, wseed, [&](int rank, MPI_Comm comm) {
+        Log<T> log;
+        RecIntegrand<T> f;
+        f.log = &log;
+        RunAcc* acc = &accs[rank];
+        f.fn = [c, acc](CallEv<T>& e, Access<T>& a) { return run_value(c, acc, e, a); };
+        std::mt19937 eng(eseed);
+        std::vector<std::size_t> one(1, calls);
+        if (integ == 0)
+        {
+            typedef hep::plain_chkpt_with_rng<std::mt19937, T> C;
+            C r = hep::mpi_plain(comm, hep::make_integrand<T>(f, dims, dp), one, C(eng), GoOnMpi());
+            if (rank == 0) res = r.results()[0];
+        }
+        else if (integ == 1)
+        {
+            hep::vegas_pdf<T> pdf(dims, bins);
+            for (std::size_t d = 0; d < dims; ++d) for (std::size_t b = 1; b < bins; ++b) pdf.set_bin_left(d, b, T(b) / T(bins) * T(b) / T(bins));
+            typedef hep::vegas_chkpt_with_rng<std::mt19937, T> C;
+            C r = hep::mpi_vegas(comm, hep::make_integrand<T>(f, dims, dp), one, C(eng, pdf, T(1.5)), GoOnMpi());
+            if (rank == 0) res = r.results()[0];
+        }
+        else
+        {
+            PowerMap<T> pm;
+            for (std::size_t ch = 0; ch < channels; ++ch) pm.a.push_back(T(ch) * T(0.5));
+            typedef hep::multi_channel_chkpt_with_rng<std::mt19937, T> C;
+            C r = hep::mpi_multi_channel(comm, hep::make_multi_channel_integrand<T>(f, dims, pm, dims, channels, dp), one, C(eng, T(), T(0.25)), GoOnMpi());
+            if (rank == 0) res = r.results()[0];
+        }
+    });
+    aborted = world.aborted || vf_mpi_take_misuse() != 0;
+    return res;
+}
+
 void run_case(Rng& rng)
 {
     int integ = rng.below(3);
@@ -299,7 +347,24 @@ void run_case(Rng& rng)
     J info;
     info.s("T", tname<T>::get()).s("integrator", names[integ]).b("two_d", c.two_d).u("bins_x", c.ax.bins).u("bins_y", c.two_d ? c.ay.bins : 1).f("x_min", c.ax.min).f("x_max", c.ax.max)
         .u("calls", calls).u("dims", dims);
-    hep::plain_result<T> res = run_any(integ, c, &acc, dims, calls, eseed, bins, channels);
+    int P = rng.below(3) == 0 ? (int)rng.range(2, 4) : 1;
+    hep::plain_result<T> res(std::vector<hep::distribution_result<T>>(), 0, 0, 0, T(), T());
+    if (P == 1) res = run_any(integ, c, &acc, dims, calls, eseed, bins, channels);
+    else
+    {
+        std::vector<RunAcc> accs(P);
+        for (auto& a : accs) { a.s.resize(nb); a.s2.resize(nb); a.sa.resize(nb); a.n.assign(nb, 0); }
+        bool aborted = false;
+        res = run_any_mpi(integ, c, accs, P, rng.next(), dims, calls, eseed, bins, channels, aborted);
+        info.u("mpi_ranks", P);
+        if (aborted) { viol("mpi:collective-mismatch-or-wrong-communicator", info); return; }
+        for (auto& a : accs)
+        {
+            for (std::size_t b = 0; b < nb; ++b) { acc.s[b].merge(a.s[b]); acc.s2[b].merge(a.s2[b]); acc.sa[b].merge(a.sa[b]); acc.n[b] += a.n[b]; }
+            acc.inside.merge(a.inside); acc.outside += a.outside; acc.overflowing += a.overflowing; acc.calls += a.calls;
+        }
+        count("runs_through_mpi_shim");
+    }
     ++ctx().evaluations;
     count(std::string("runs_") + names[integ]);
     auto const& dr = res.distributions()[0];
@@ -326,7 +391,7 @@ void run_case(Rng& rng)
     // differential: bin == integral of value * indicator(bin) / area with the same random numbers
     std::size_t bsel = 0;
     for (std::size_t b = 0; b < nb; ++b) if (acc.n[b] > acc.n[bsel]) bsel = b;
-    if (acc.n[bsel] >= 2)
+    if (acc.n[bsel] >= 2 && P == 1)
     {
         RunCfg c2 = c;
         c2.only_bin = (long)bsel;
